@@ -80,7 +80,7 @@ func init() {
 
 func runDotText(c *Ctx) *Violation {
 	t := c.T
-	c.Declare("subgraph_to_subgraph_edge", "chained_edge_statement", "nested_subgraph_endpoint", "declared_node_in_subgraph_endpoint", "attribute_statement", "parse_stream_error_injected", "parse_stream_chunked", "port_on_chain_vertex", "simple_destination_checked", "self_loop_into_simple_destination")
+	c.Declare("subgraph_to_subgraph_edge", "chained_edge_statement", "nested_subgraph_endpoint", "declared_node_in_subgraph_endpoint", "attribute_statement", "parse_stream_error_injected", "parse_stream_chunked", "port_on_chain_vertex", "simple_destination_checked", "self_loop_into_simple_destination", "declared_node_named_again_in_quotes")
 	next := 0
 	fresh := func() string {
 		next++
@@ -113,10 +113,16 @@ func runDotText(c *Ctx) *Violation {
 		switch k := t.Choose(simrt.KWorkload, 4); {
 		case k == 0 && len(declared) > 0:
 			id := declared[t.Choose(simrt.KWorkload, len(declared))]
-			if depth == 0 {
-				return withPort(vertex{id, []string{id}, ""})
+			// an ID and the same ID in double quotes are one ID in DOT
+			txt := id
+			if t.Choose(simrt.KWorkload, 3) == 2 {
+				txt = `"` + id + `"`
+				c.Probe("declared_node_named_again_in_quotes", 1)
 			}
-			return vertex{id, []string{id}, ""}
+			if depth == 0 {
+				return withPort(vertex{txt, []string{id}, ""})
+			}
+			return vertex{txt, []string{id}, ""}
 		case k <= 1:
 			id := fresh()
 			declared = append(declared, id)
